@@ -186,7 +186,7 @@ def run(ctx):
 
     # ---- R3 cancel before dispatch
     r = ctx.rule("R3", "canceller dequeues a still-queued request and reports request_sent=False; send stage skips "
-                       "fired Deferreds", 3, "B")
+                       "fired Deferreds", 4, "B")
     ccf = ctx.cfg(canc)
     fcc = ctx.facts(canc)
     rm = [n for n in ccf.nodes if any(call_name(c) == "remove" and call_recv(c) == "self._batch_reqs" for c in n.calls())]
@@ -237,6 +237,12 @@ def run(ctx):
         matched = bool(live) and all(_def_matches(dn, v) for dn, v in live)
     r.check(matched, "%s#dequeue-matches" % canc.qname, "the request removed from the queue is not the one whose Deferred is cancelled",
             where(canc, rm[0].stmt))
+    # a send can be queued while a batch is in flight (that is what the queue is for): whether the cancelled request is still
+    # queued is found out by looking, not concluded from the in-flight handle
+    gated = [norm(t.stmt.test, 60) for t, lab in ccf.control_deps_transitive(rm[0].id) if t.kind == "test" and "_batch_send_d" in norm(at(ctx, canc, t.id, t.stmt.test))]
+    r.check(not gated, "%s#queue-searched-whatever-is-in-flight" % canc.qname, "the dequeue of a cancelled request depends on the in-flight handle: %s" % gated,
+            where(canc, rm[0].stmt), "a send queued behind an in-flight batch and then cancelled stays in the queue and in the counts: it is "
+            "transmitted with the next batch, which is dispatched below the threshold")
     ebs = [(n, c) for n in ccf.nodes for c in n.calls() if call_name(c) == "errback" and call_recv(c) == dparam]
     after = [(n, c) for n, c in ebs if n.id in ccf.reach([rm[0].id])]
     ok = bool(after) and all("request_sent=False" in norm(c) for n, c in after) and not ccf.normal_exits_from(
